@@ -108,7 +108,8 @@ def gen_vacuum(rng):
             "thickness": [float(rng.uniform(0.3, 20.0)) for _ in range(ns)], "exit_planes": bool(rng.random() < 0.5),
             "builder": str(rng.choice(["plane", "plane", "probe", "waves"])), "tilt": _tilt_spec(rng),
             "lazy": bool(rng.random() < 0.5), "order": int(rng.choice([1, 2])), "precision": str(rng.choice(["float32", "float64"])),
-            "cutoff": float(rng.choice([10.0, 25.0])), "pos": rng.random(2).round(4).tolist(), "seed": int(rng.integers(0, 2 ** 31))}
+            "cutoff": float(rng.choice([10.0, 25.0])), "pos": rng.random(2).round(4).tolist(), "seed": int(rng.integers(0, 2 ** 31)),
+            "joint": bool(rng.random() < 0.5)}
 
 
 def gen_forms(rng):
@@ -118,7 +119,8 @@ def gen_forms(rng):
             "slice_thickness": float(rng.choice([0.5, 1.0, 2.0])), "builder": str(rng.choice(["plane", "probe"])),
             "x": [_t(rng) for _ in range(nx)], "y": [_t(rng) for _ in range(ny)] if ny else _t(rng),
             "lazy": bool(rng.random() < 0.5), "precision": str(rng.choice(["float32", "float64"])), "order": int(rng.choice([1, 2])),
-            "cutoff": 20.0, "pos": rng.random(2).round(4).tolist(), "shuffle": bool(rng.random() < 0.5), "seed": int(rng.integers(0, 2 ** 31))}
+            "cutoff": 20.0, "pos": rng.random(2).round(4).tolist(), "shuffle": bool(rng.random() < 0.5), "seed": int(rng.integers(0, 2 ** 31)),
+            "joint": bool(rng.random() < 0.5)}
 
 
 def gen(rng, tier):
@@ -140,9 +142,11 @@ def fixed_cases(tier):
         out.append(dict(gen_propagate(rng), precision=prec, tilt={"kind": "pairs", "t": [[-50.0, 21.0], [0.0, 49.0]]}, dz=-77.0))
         out.append(dict(gen_roll(rng), precision=prec))
     for b, lazy in (("plane", False), ("plane", True), ("probe", True), ("waves", False)):
-        out.append(dict(gen_vacuum(rng), builder=b, lazy=lazy, exit_planes=True, tilt={"kind": "axes", "x": [45.0, -12.0], "y": 30.0}))
+        out.append(dict(gen_vacuum(rng), builder=b, lazy=lazy, exit_planes=True, tilt={"kind": "axes", "x": [45.0, -12.0], "y": 30.0},
+                        joint=(b == "probe")))
+    out.append(dict(gen_vacuum(rng), builder="probe", lazy=True, joint=True, tilt={"kind": "base", "t": [40.0, -25.0]}))
     out.append(dict(gen_forms(rng), lazy=False, precision="float64"))
-    out.append(dict(gen_forms(rng), lazy=True, precision="float32"))
+    out.append(dict(gen_forms(rng), lazy=True, precision="float32", joint=True))
     return out
 
 
@@ -263,9 +267,16 @@ def check_vacuum(ctx, case):
                 if case["lazy"]:
                     w = w.ensure_lazy()
                 out = w.multislice(vac, algorithm=alg)
-            return L.member_arrays(out).astype(np.complex128)
-        got = run(case["tilt"])
-        ref = run({"kind": "none"})
+            return out
+        if case["lazy"] and case.get("joint"):
+            # tilted and untilted lazy pipelines evaluated in ONE dask computation (shared-key hazards)
+            import dask
+            got, ref = dask.compute(run(case["tilt"]).array, run({"kind": "none"}).array)
+            got, ref = np.asarray(got).astype(np.complex128), np.asarray(ref).astype(np.complex128)
+            ctx.monitor("joint-computes")
+        else:
+            got = L.member_arrays(run(case["tilt"])).astype(np.complex128)
+            ref = L.member_arrays(run({"kind": "none"})).astype(np.complex128)
     nplanes = len(vac.exit_planes)
     tshape = tilts.shape[:-1]
     # layout of the output: [thickness axis], tilt axes, [probe position axis of length 1], y, x
@@ -308,11 +319,22 @@ def check_forms(ctx, case):
                 p = abtem.Probe(energy=case["energy"], semiangle_cutoff=case["cutoff"], tilt=tilt)
                 pos = np.array(case["pos"]) * np.array(pot.extent)
                 out = p.multislice(pot, scan=abtem.CustomScan(pos[None]), lazy=lazy, algorithm=alg)
-            return L.member_arrays(out).astype(np.complex128)
+            return out if keep_lazy else L.member_arrays(out).astype(np.complex128)
         from abtem import distributions as D
-        ax = run((D.from_values(xs), D.from_values(case["y"]) if isinstance(case["y"], list) else case["y"]), case["lazy"])
+        keep_lazy = False
+        t_axes = (D.from_values(xs), D.from_values(case["y"]) if isinstance(case["y"], list) else case["y"])
+        t_pairs = np.array([pairs[i] for i in order], dtype=float)
+        if case["lazy"] and case.get("joint"):
+            import dask
+            keep_lazy = True
+            ax, pr = dask.compute(run(t_axes, True).array, run(t_pairs, True).array)     # one dask computation for both forms
+            ax, pr = np.asarray(ax).astype(np.complex128), np.asarray(pr).astype(np.complex128)
+            keep_lazy = False
+            ctx.monitor("joint-computes")
+        else:
+            ax, pr = run(t_axes, case["lazy"]), run(t_pairs, case["lazy"])
         ax = ax.reshape((len(pairs),) + gpts)
-        pr = run(np.array([pairs[i] for i in order], dtype=float), case["lazy"]).reshape((len(pairs),) + gpts)
+        pr = pr.reshape((len(pairs),) + gpts)
         pr_sorted = np.empty_like(pr)
         for k, i in enumerate(order):
             pr_sorted[i] = pr[k]
